@@ -485,4 +485,6 @@ def r_idioms(ctx):
     repo_idioms(ctx, "C14.R6", ('serializable', 'connection'))
 
 
+EXPLANATION = EXPLANATION + " (R2, as built) no decompressor (gzip, zlib, bz2, lzma, ...) is reachable from the functions that decode peer data: the decoder's caps and its consumption bound count the bytes of the stream it is given, which must be the received bytes."
+
 RULES = [("C14.R1", r1), ("C14.R2", r2), ("C14.R3", r3), ("C14.R4", r4), ("C14.R5", r5), ("C14.R6", r_idioms)]
